@@ -298,6 +298,35 @@ func checkLowBalanceGuard(p *an.Prog, r *an.Run, fn *ssa.Function, lb lbReturn, 
 					bad = append(bad, "the compared value is computed with "+an.ObjString(an.CallObj(c))+", not a plain sum")
 				}
 			}
+			// ... on every path: where the compared value is a merge, each alternative is a balance read from the store
+			// for this request (a value remembered from an earlier request misses what other nodes of the same account,
+			// deposits and withdrawals have done to the balance since)
+			{
+				seenPhi := map[ssa.Value]bool{}
+				var leaves []ssa.Value
+				var walk func(v ssa.Value)
+				walk = func(v ssa.Value) {
+					if seenPhi[v] {
+						return
+					}
+					seenPhi[v] = true
+					if ph, ok := v.(*ssa.Phi); ok {
+						for _, e := range ph.Edges {
+							walk(e)
+						}
+						return
+					}
+					leaves = append(leaves, v)
+				}
+				walk(rel.L)
+				if len(leaves) > 1 {
+					for _, lv := range leaves {
+						if p.DerivesIn(fn, 3, lv).CallTo(func(f *types.Func) bool { return isStoreMethodNamed(f, "GetNodeBalance") }) == nil {
+							bad = append(bad, "on some path the balance compared with the minimum is not read from the store for this request (a remembered value)")
+						}
+					}
+				}
+			}
 			if node != nil {
 				da := p.Derives(0, methodArgs(get)[0])
 				if !da.HasParam(node) || !da.HasFieldNamed("Node", "ID") {
